@@ -9,7 +9,10 @@ use crate::restion::Restion;
 
 use std::io::{Read, Write};
 use std::net::SocketAddr;
+#[cfg(not(humphrey_verif))]
 use std::time::Instant;
+#[cfg(humphrey_verif)]
+use humphrey::verif::time::Instant;
 
 /// Represents a WebSocket stream.
 ///
